@@ -148,6 +148,30 @@ def expressions(depth: int) -> Iterator[Tuple[str, str, str]]:
         for consequent in CONSEQUENTS:
             yield from emit("is-none-or", "guard", f"{subject} is None or {consequent}")
             yield from emit("is-none-and", "guard", f"{subject} is None and {consequent}")
+    # precedence and associativity: compound operands under every binary operator (the
+    # source is parenthesised where needed; the transpiler has to keep the grouping)
+    compound = [
+        "self.os is None", "self.oi is not None", "self.i > 0", "self.b", "not self.b",
+        "self.b and self.i > 0", "self.b or self.i > 1", "self.i in Numbers", "self.i == 1",
+        "self.s == 'a'", "len(self.li) > 1",
+    ]
+    for left, right in itertools.product(compound, repeat=2):
+        for op in ("==", "!="):
+            yield from emit("precedence-compare", "bool,bool", f"({left}) {op} ({right})")
+        yield from emit("precedence-not", "bool,bool", f"not ({left}) == ({right})")
+        yield from emit("precedence-not", "bool,bool", f"(not ({left})) == ({right})")
+        yield from emit("precedence-junction", "bool,bool", f"({left}) and not ({right})")
+        yield from emit("precedence-junction", "bool,bool", f"not (({left}) or ({right}))")
+    for first, second, third in itertools.product(compound[:7], repeat=3):
+        yield from emit("precedence-mixed", "bool,bool,bool", f"({first}) and (({second}) or ({third}))")
+        yield from emit("precedence-mixed", "bool,bool,bool", f"(({first}) and ({second})) or ({third})")
+        yield from emit("precedence-mixed", "bool,bool,bool", f"({first}) or ({second}) and ({third})")
+    numbers = ["self.i", "1", "len(self.s)", "self.c.count", "self.i + 1", "self.i - 2"]
+    for a, b, c in itertools.product(numbers, repeat=3):
+        yield from emit("precedence-arithmetic", "int,int,int", f"{a} - ({b} - {c}) == 1")
+        yield from emit("precedence-arithmetic", "int,int,int", f"{a} - ({b} + {c}) == -1")
+        yield from emit("precedence-arithmetic", "int,int,int", f"({a} - {b}) - {c} < 0")
+        yield from emit("precedence-arithmetic", "int,int,int", f"{a} + ({b} - {c}) > 1")
     if depth < 2:
         return
     level1 = [
